@@ -473,6 +473,11 @@ func genRlims(t *rapid.T, min, max int) []Rlim {
 
 // fill draws the well-formed value list of an annotation (at least min elements).
 func (a *Ann) fill(t *rapid.T, min int) {
+	// now and then a long list (shrinks to the short ones): the number of entries is data too
+	if min > 0 && rapid.SampledFrom([]int{0, 0, 0, 0, 0, 0, 0, 0, 0, 0, 0, 0, 0, 1}).Draw(t, "long") == 1 {
+		a.fillLong(rapid.SampledFrom([]int{31, 32, 33, 34, 35, 40, 64, 65, 100, 128, 129, 300}).Draw(t, "listlen"), rapid.IntRange(0, 9).Draw(t, "tag"))
+		return
+	}
 	switch a.Family {
 	case famDev:
 		a.Devices = rapid.SliceOfNDistinct(genDev(), min, 3, func(d Dev) string { return d.Path }).Draw(t, "devices")
@@ -482,6 +487,25 @@ func (a *Ann) fill(t *rapid.T, min int) {
 		a.Mounts = rapid.SliceOfNDistinct(genMnt(), min, 3, func(m Mnt) string { return m.Destination }).Draw(t, "mounts")
 	case famRlim:
 		a.Rlimits = genRlims(t, min, 3)
+	}
+}
+
+// fillLong sets a well-formed list of n distinct entries (rlimits: as many as there are types).
+func (a *Ann) fillLong(n, tag int) {
+	a.Devices, a.CDI, a.Mounts, a.Rlimits = nil, nil, nil, nil
+	for i := 0; i < n; i++ {
+		switch a.Family {
+		case famDev:
+			a.Devices = append(a.Devices, Dev{Path: fmt.Sprintf("/dev/long%d-%03d", tag, i), Type: "c", Major: int64(100 + tag), Minor: int64(i)})
+		case famCDI:
+			a.CDI = append(a.CDI, fmt.Sprintf("vendor.com/long%d=dev%03d", tag, i))
+		case famMnt:
+			a.Mounts = append(a.Mounts, Mnt{Source: fmt.Sprintf("/src/%03d", i), Destination: fmt.Sprintf("/mnt/long%d-%03d", tag, i), Type: "bind", Options: []string{"ro"}})
+		case famRlim:
+			if i < len(rlimitNames) {
+				a.Rlimits = append(a.Rlimits, Rlim{Type: rlimitNames[(i+tag)%len(rlimitNames)], Hard: u64p(uint64(1000 + i)), Soft: u64p(uint64(i))})
+			}
+		}
 	}
 }
 
